@@ -655,6 +655,10 @@ func collectBlocks(nodes []Node, ctx *RenderContext) {
 		case *ForNode:
 			collectBlocks(b.body, ctx)
 			collectBlocks(b.elseBranch, ctx)
+		case *ApplyNode:
+			collectBlocks(b.body, ctx)
+		case *SpacelessNode:
+			collectBlocks(b.body, ctx)
 		}
 	}
 }
